@@ -10,6 +10,12 @@ Three families (DESIGN.md 5/C03):
         scaled, and products across the two classes) acting on X of either module (transformations included), single
         and composite: type / composite shape of X in every broadcast mode, A @ X == A.apply(X), inverse, associativity
         with a factor of the other class, identity of the other module.
+  (i')  projective-illcond: family (i) again over an alphabet of ILL-CONDITIONED but exactly invertible transformations
+        (I + t E_ij with t up to 2^30 / 10^9, power-of-two diagonal maps, the boost with eigenvalues 2^15, 2^-15;
+        condition numbers 2^30 .. 2^60): the inverse laws with the exact tolerance where every float64 operation is
+        exact and with 64*eps*cond otherwise (inv_tol); the same three kinds of A as extra routes of family (iv).
+  (iii') representation histories: ONE representation object through evaluations and generator (re-)assignments;
+        rep[w] @ point always belongs to the current generators.
 
 The oracle for the action itself is the definition "every coordinate row v of the object becomes M v"
 (M the matrix acting on column vectors), written with plain einsum / matmul on the unit rows; it never calls
@@ -36,7 +42,7 @@ PROJ_GENS = ["E01", "E10", "Elast", "P", "S", "G01", "Gd", "Gm"]
 # ill-conditioned but exactly invertible transformations (condition number 1e9 .. 1e18, far beyond any fixed
 # "numerically singular" cut-off an inversion routine might apply, yet with an inverse that is an exact float64 matrix)
 BIG, MID = 2.0 ** 30, 2.0 ** 15
-ILL_UNIPOTENT = ["Ub", "Lb", "Ud", "Gb", "Um"]       # I + t E_ij, t an integer <= 2^30: LU inversion is exact
+ILL_UNIPOTENT = ["Ub", "Lb", "Ud", "Gb", "Um"]       # I + t E_ij, t <= 2^30 (a power of two except Ud: t = 10^9)
 ILL_DIAGONAL = ["Db"]                                 # powers of two on the diagonal: exact scaling
 ILL_MODERATE = ["Lm", "Hm"]                           # condition ~ 2^30, inverse NOT exact in LU: eps * cond tolerance
 ILL_GENS = ILL_UNIPOTENT + ILL_DIAGONAL + ILL_MODERATE
@@ -225,12 +231,21 @@ def exact_dot(M, Y):
     return bool(np.max(np.einsum("ij,...j->...i", np.abs(M), np.abs(np.asarray(Y)))) < 2.0 ** 51)
 
 
+def absmax(a):
+    return float(np.max(np.abs(a))) if a is not None and np.size(a) else 0.0
+
+
 def inv_tol(M, name=None, before=(), after=()):
     """Tolerance (relative to 1 + max|expected|) of an inverse law for the column matrix M, or None if the law is
-    not decidable in float64.  1e-9 as long as 64*eps*cond(M) stays below it (the whole well-conditioned
-    alphabet); 1e-9 also when M is a single generator whose inverse and whose action on the data at hand are
-    exact float64 computations (power-of-two diagonal; I + t E_ij on integer data of bounded size); otherwise
-    64*eps*cond(M), and undecided above 1e-3."""
+    not decidable in float64.
+      * 1e-9 as long as 64*eps*cond(M) stays below it (the whole well-conditioned alphabet);
+      * M a power-of-two diagonal matrix: 1e-9 (scaling by powers of two is exact);
+      * M = I + t E_ij a single generator (inverse I - t E_ij): every rational inversion algorithm returns the
+        inverse with entrywise relative error O(eps), so inv @ (M @ Y) carries at most
+        64*eps*max(|M| |Y|, |M^-1| |M Y|) absolute error; for t a power of two and integer data of bounded size
+        every operation is exact and 1e-9 is demanded;
+      * otherwise 64*eps*cond(M); undecided (None) above 1e-3.
+    `before` = arrays of the object before M was applied (the expected value), `after` = arrays of its image."""
     tol = 64.0 * EPS * float(np.linalg.cond(M))
     if tol <= 1e-9:
         return 1e-9
@@ -238,8 +253,14 @@ def inv_tol(M, name=None, before=(), after=()):
         return 1e-9
     if name in ILL_UNIPOTENT:
         Mi = 2.0 * np.eye(M.shape[0]) - M                  # exact inverse of I + t E_ij
-        if all(exact_dot(M, d) for d in before) and all(exact_dot(Mi, d) for d in after):
+        before = [d for d in before if d is not None]
+        after = [d for d in after if d is not None]
+        if name != "Ud" and all(exact_dot(M, d) for d in before) and all(exact_dot(Mi, d) for d in after):
             return 1e-9
+        bound = max([absmax(np.einsum("ij,...j->...i", np.abs(M), np.abs(d))) for d in before] +
+                    [absmax(np.einsum("ij,...j->...i", np.abs(Mi), np.abs(d))) for d in after] + [1.0])
+        scale = 1.0 + min([absmax(d) for d in before] + [bound])
+        tol = min(tol, max(1e-9, 64.0 * EPS * bound / scale))
     return tol if tol <= 1e-3 else None
 
 
@@ -322,12 +343,12 @@ def case_proj(hist):
         other.inv()
         for (L_, R_, ML, MR, tag) in ((other, Ts[k - 1], mo, Ms[k - 1], "queried-right-factor"),
                                       (Ts[k - 1], other, Ms[k - 1], mo, "queried-left-factor")):
+            tol = inv_tol(ML @ MR)
+            if tol is None:
+                continue            # the product is not invertible in float64 (condition > 1e-3 / (64 eps))
             Q = L_ @ R_
             Qi = Q.inv()
             t += 4
-            tol = inv_tol(ML @ MR)
-            if tol is None:
-                continue
             if not close(Qi.proj_data, np.linalg.inv(ML @ MR).T, tol):
                 v.append(V("proj/inverse-of-product/%s" % tag, "(%s @ %s).inv() has row matrix\n%r\nexpected\n%r" % (
                     oname if L_ is other else ops[-1], ops[-1] if L_ is other else oname, Qi.proj_data, np.linalg.inv(ML @ MR).T)))
@@ -531,7 +552,12 @@ def derived_checks(v, cls, obj, n):
         ed = obj.get_edges()
         e = rows_err(ed.proj_data, edges_of(d))
         e2 = pair_err_unordered(ed.aux_data, ideal_endpoints(edges_of(d)))
-        if e > TOL_SIN or e2 > TOL_SIN:
+        # same conditioning as for Segment above: vertices far from the origin determine the ideal endpoints of
+        # an edge only to eps * cosh^2(distance from the origin)
+        dd = np.asarray(d, dtype=float)
+        q = np.abs(hyp.mink(dd, dd))
+        c = float(np.max(np.sqrt(np.sum(dd * dd, axis=-1) / np.where(q > 0, q, 1.0)))) if np.all(q > 1e-12) else 1.0
+        if e > TOL_SIN or e2 > TOL_SIN * max(1.0, c * c / 50.0):
             v.append(V("hyp/derived/Polygon/get_edges", "get_edges(): endpoints err %.3g, ideal endpoints err %.3g" % (e, e2)))
 
 
@@ -766,6 +792,137 @@ def case_rep_bulk(case):
     return {"v": v, "t": t, "o": repr((kind, m, tuple(order), dt)), "nt": True}
 
 
+# histories of ONE representation object: the word images always belong to the CURRENT generators
+REP_ACTS = ["act", "act-inverse-letters", "bulk"]
+REP_SETS = ["a=2", "a=3", "b=2", "A=2", "B=3"]
+REP_HIST_OPS = REP_ACTS + REP_SETS
+
+
+def rep_alt_generator(kind, m, cx, idx):
+    """Replacement generators (COLUMN matrices), different from rep_generators and from each other."""
+    if kind == "proj":
+        g = mix_uni(idx, m).T
+        if cx and idx == 2:
+            return g @ tmat("Gm", m)        # Gaussian-integer, unimodular; generator 3 stays real on purpose
+        return g.astype(complex) if cx and idx == 2 else g
+    return mix_iso(idx, m - 1).T
+
+
+def rep_hist_sequences(L):
+    """All op sequences of length <= L in which some assignment comes after some evaluation."""
+    out = []
+    for l in range(2, L + 1):
+        for seq in itertools.product(REP_HIST_OPS, repeat=l):
+            first_act = min([i for i, o in enumerate(seq) if o in REP_ACTS] + [l])
+            if any(o in REP_SETS for o in seq[first_act + 1:]):
+                out.append(list(seq))
+    return out
+
+
+def case_rep_hist(case):
+    """One representation object through a sequence of evaluations (rep[w] @ points for every word of length <= 2,
+    or only the words in inverse letters, or the bulk accessors) and generator assignments (re-assigning a or b,
+    assigning through the inverse letter A or B); after every step of the sequence that evaluates, and for all
+    words of length <= 3 at the end, rep[w] @ p is M_w p^T with M_w the oracle product of the CURRENT generators."""
+    from geometry_tools import projective as P, hyperbolic as H
+    kind, m, cx, seq = case["kind"], case["m"], case["cx"], case["seq"]
+    a, b = rep_generators(kind, m, cx)
+    Cls, Rep, Pt = (P.Transformation, P.ProjectiveRepresentation, P.Point) if kind == "proj" else \
+                   (H.Isometry, H.HyperbolicRepresentation, H.Point)
+    if kind == "proj":
+        pts = rows(3, 3, m, cx)
+    else:
+        K = lattice.klein_points(m - 1, m_generic=4, seed=case.get("seed", 0))
+        pts = np.array([hyp.klein_to_projective(K[-1]), hyp.klein_to_projective(K[-2], 2.5), hyp.klein_to_projective(K[1])])
+    nsup = [0]
+
+    def wrap(g):
+        nsup[0] += 1
+        if nsup[0] % 2:
+            return Cls(np.array(g).copy(), column_vectors=True)
+        return Cls(np.array(g).T.copy())
+    rep_ = Rep()
+    rep_["a"] = wrap(a)
+    rep_["b"] = wrap(b)
+    model = {"a": a, "b": b}
+    v, t = [], 2
+    stage = ["fresh"]
+
+    def oracle_words(L):
+        g = {"a": model["a"], "b": model["b"], "A": np.linalg.inv(model["a"]), "B": np.linalg.inv(model["b"])}
+        W = {"": np.eye(m, dtype=complex if cx else float)}
+        for w in all_words(L):
+            if w:
+                W[w] = W[w[:-1]] @ g[w[-1]]
+        return W
+
+    def check_words(words, W, when):
+        nonlocal t
+        for w in words:
+            T = rep_[w]
+            t += 2
+            if type(T) is not Cls:
+                v.append(V("rep/history/type/%s" % kind, "rep[%r] is a %s" % (w, type(T).__name__)))
+                return False
+            Y = T @ Pt(pts.copy())
+            exp = np.einsum("ij,...j->...i", W[w], pts)
+            if type(Y) is not Pt or tuple(Y.shape) != (3,):
+                v.append(V("rep/history/type/%s-point" % kind, "rep[%r] @ points is a %s of shape %r" % (w, type(Y).__name__, Y.shape)))
+                return False
+            e = rows_err(Y.proj_data, exp)
+            if not e <= 1e-9:
+                v.append(V("rep/history/action/%s/%s" % (kind, stage[0]),
+                           "after %r (%s): rep[%r] @ p = %r but M_w p^T = %r for the current generators (sin err %.3g)" % (
+                               seq, when, w, Y.proj_data, exp, e)))
+                return False
+            e = float(np.max(hyp.proj_sin_err(np.asarray(T.proj_data).T.reshape(-1), W[w].reshape(-1))))
+            if not e <= 1e-9:
+                v.append(V("rep/history/matrix/%s/%s" % (kind, stage[0]), "after %r (%s): rep[%r] as a column matrix is not proportional to M_w (sin err %.3g)" % (seq, when, w, e)))
+                return False
+        return True
+
+    short = list(all_words(2))
+    for i, op in enumerate(seq):
+        when = "step %d" % i
+        if op == "act":
+            if not check_words(short, oracle_words(2), when):
+                break
+        elif op == "act-inverse-letters":
+            if not check_words([w for w in short if w and w.isupper()], oracle_words(2), when):
+                break
+        elif op == "bulk":
+            W = oracle_words(2)
+            exp = np.array([W[w] for w in short]).astype(complex)
+            expimg = np.einsum("wij,j->wi", exp, pts[0].astype(complex))
+            accessors = ["elements", "transformations"] + (["isometries"] if kind == "hyp" else [])
+            for name in accessors:
+                T = getattr(rep_, name)(short)
+                t += 2
+                got = np.swapaxes(np.asarray(T.proj_data), -1, -2).astype(complex)
+                if type(T) is not Cls or got.shape != exp.shape:
+                    v.append(V("rep/history/bulk/%s/type" % name, "%s(words) is a %s with data of shape %r" % (name, type(T).__name__, got.shape)))
+                    break
+                e = max(float(np.max(hyp.proj_sin_err(g_.reshape(-1), e_.reshape(-1)))) for g_, e_ in zip(got, exp))
+                img = T @ Pt(pts[0].copy())
+                e2 = float(np.max(hyp.proj_sin_err(np.asarray(img.proj_data).astype(complex), expimg)))
+                if not (e <= 1e-9 and e2 <= 1e-9):
+                    v.append(V("rep/history/bulk/%s/%s/%s" % (name, kind, stage[0]), "after %r (%s): %s(words) is not the oracle image of the current generators (matrix sin err %.3g, action sin err %.3g)" % (
+                        seq, when, name, e, e2)))
+                    break
+            if v:
+                break
+        else:
+            letter, idx = op.split("=")
+            g = rep_alt_generator(kind, m, cx, int(idx))
+            rep_[letter] = wrap(g)
+            t += 1
+            model[letter.lower()] = g if letter.islower() else np.linalg.inv(g)
+            stage[0] = "after-reassignment" if letter.islower() else "after-inverse-letter-assignment"
+    if not v:
+        check_words(list(all_words(3)), oracle_words(3), "end")
+    return {"v": v, "t": t, "o": repr((kind, m, cx, tuple(seq[-2:]), stage[0])), "nt": True}
+
+
 def all_words(L):
     for l in range(L + 1):
         for w in itertools.product("abAB", repeat=l):
@@ -776,7 +933,15 @@ def all_words(L):
 # family (iv): compositions across the two transformation classes, Isometry-typed non-isometries
 # ------------------------------------------------------------------------------------------------
 MIX_ROUTES = ["P:uni", "P:iso", "H:iso", "H:uni", "H:scaled-iso", "H:P@H", "P:H@P"]
-MIX_ISOMETRIC = ("P:iso", "H:iso", "H:scaled-iso")
+MIX_ISOMETRIC = ("P:iso", "H:iso", "H:scaled-iso", "H:ill-lox")
+# ill-conditioned routes (condition 2^30 .. 2^60, all exactly invertible matrices): a smaller shape set, and
+#   P:ill-exact  I + t E_ij (t ~ 2^30, 2^29) and power-of-two diagonal maps, on the integer-valued projective classes
+#                (every operation exact in float64: the usual tolerance);
+#   P:ill-mod    rotation conjugates of the boost with eigenvalues ~2^15, 2^-15 and I + (2^15+1+j) E_10;
+#   H:ill-lox    loxodromic isometries with parameter ~2^15 (the first unit: the exact standard boost), on every
+#                hyperbolic class;  the last two with tolerance 64*eps*cond
+MIX_ILL_ROUTES = ["P:ill-exact", "P:ill-mod", "H:ill-lox"]
+MIX_ILL_SHAPES = [[], [3], [2, 3]]
 MIX_X_TRANSFORMS = ["P.Transformation", "H.Isometry"]
 MIX_X_PROJ = ["P.Point", "P.PointPair", "P.Polygon", "P.Simplex", "P.Subspace"]
 MIX_X_HYP_ANY = ["H.Point", "H.IdealPoint", "H.PointPair", "H.Segment", "H.Geodesic", "H.Polygon"]
@@ -785,6 +950,8 @@ MIX_MODES = ["elementwise", "pairwise", "pairwise_reversed"]
 
 
 def mix_classes(route):
+    if route == "P:ill-exact":
+        return ["P.Transformation"] + MIX_X_PROJ
     return MIX_X_TRANSFORMS + MIX_X_PROJ + MIX_X_HYP_ANY + (MIX_X_HYP_ISO if route in MIX_ISOMETRIC else [])
 
 
@@ -822,6 +989,59 @@ def mix_iso(j, n):
     return R
 
 
+def mix_ill_exact(j, m):
+    """ROW matrices with an exact float64 inverse and condition 2^58 .. 2^60, pairwise distinct."""
+    r = np.eye(m)
+    if j % 3 == 0:
+        r[0, m - 1] = BIG + 2.0 ** (j // 3)
+    elif j % 3 == 1:
+        r[m - 1, 0] = BIG / 2 + 2.0 ** (j // 3)
+    else:
+        r = np.diag([1.0, BIG, 1.0 / BIG, MID][:m]) * 2.0 ** (j // 3)
+    return r
+
+
+def mix_ill_mod(j, m):
+    """ROW matrices of determinant 1 and condition ~2^30: orthogonal conjugates of boosts, a non-power-of-two shear."""
+    if j % 3 == 2:
+        r = np.eye(m)
+        r[1, 0] = MID + 1.0 + j
+        return r
+    p = MID * (1.0 + j / 16.0)
+    r = np.eye(m)
+    r[0, 0] = r[1, 1] = (p + 1.0 / p) / 2.0
+    r[0, 1] = r[1, 0] = (p - 1.0 / p) / 2.0
+    if j == 0:
+        return r
+    th = 0.3 + 0.37 * j
+    q = np.eye(m)
+    q[0, 0] = q[m - 1, m - 1] = math.cos(th)
+    q[0, m - 1], q[m - 1, 0] = -math.sin(th), math.sin(th)
+    return q @ r @ q.T
+
+
+def mix_ill_lox(j, n):
+    """ROW matrices of SO(n,1) with condition ~2^30: the standard boost with parameter p ~ 2^15 (j = 0: exact
+    entries), conjugated by rotations about the origin for j > 0."""
+    m = n + 1
+    p = MID * (1.0 + j / 16.0)
+    r = np.eye(m)
+    r[0, 0] = r[1, 1] = (p + 1.0 / p) / 2.0
+    r[0, 1] = r[1, 0] = (p - 1.0 / p) / 2.0
+    if j == 0:
+        return r
+    th = 0.3 + 0.37 * j
+    q = np.eye(m)
+    q[1, 1] = q[2, 2] = math.cos(th)
+    q[1, 2], q[2, 1] = -math.sin(th), math.sin(th)
+    if n >= 3:
+        q2 = np.eye(m)
+        q2[2, 2] = q2[3, 3] = math.cos(0.5 + 0.11 * j)
+        q2[2, 3], q2[3, 2] = -math.sin(0.5 + 0.11 * j), math.sin(0.5 + 0.11 * j)
+        q = q @ q2
+    return q @ r @ q.T
+
+
 def stack_units(units, shape):
     shape = tuple(shape)
     u = np.array(units[:size(shape)])
@@ -849,6 +1069,15 @@ def build_mix_A(route, n, shape, off=0):
         return P.Transformation(U.copy()) @ H.Isometry(I.copy()), H.Isometry, I @ U
     if route == "P:H@P":
         return H.Isometry(I.copy()) @ P.Transformation(U.copy()), P.Transformation, U @ I
+    if route == "P:ill-exact":
+        E = stack_units([mix_ill_exact(off + j, n + 1) for j in range(N)], shape)
+        return P.Transformation(E.copy()), P.Transformation, E
+    if route == "P:ill-mod":
+        E = stack_units([mix_ill_mod(off + j, n + 1) for j in range(N)], shape)
+        return P.Transformation(E.copy()), P.Transformation, E
+    if route == "H:ill-lox":
+        E = stack_units([mix_ill_lox(off + j, n) for j in range(N)], shape)
+        return H.Isometry(np.swapaxes(E, -1, -2).copy(), column_vectors=True), H.Isometry, E
     raise ValueError(route)
 
 
@@ -891,6 +1120,9 @@ def case_mixed(case):
         v.append(V("mixed/type/transformation-product/%s" % route, "the %s route gives a %s, expected %s (A @ X has the type of X)" % (
             route, type(A).__name__, Acls.__name__)))
         return {"v": v, "t": t, "o": "type", "nt": True}
+    tol = TOL_SIN
+    if route in ("P:ill-mod", "H:ill-lox"):
+        tol = max(TOL_SIN, 64.0 * EPS * float(np.max(np.linalg.cond(RA))))
     if tuple(A.shape) != sA or unit_err(A.proj_data, RA, True) > TOL_SIN:
         v.append(V("mixed/product-matrix/%s" % route, "route %s shape %r: matrix\n%r\nexpected\n%r" % (route, A.shape, A.proj_data, RA)))
         return {"v": v, "t": t, "o": "matrix", "nt": True}
@@ -917,12 +1149,12 @@ def case_mixed(case):
 
     def same(tag, Y, Z_data, Z_aux, ordered_aux=True):
         e = unit_err(Y.proj_data, Z_data, whole)
-        if not e <= TOL_SIN:
+        if not e <= tol:
             v.append(V("mixed/%s/primary/%s/%s" % (tag, fam, xcls), "A=%s%r X=%s%r: primary data differ projectively (sin err %.3g)\n%r\nexpected\n%r" % (
                 route, sA, xcls, sX, e, Y.proj_data, Z_data)))
         if Z_aux is not None:
             e = unit_err(Y.aux_data, Z_aux, False) if ordered_aux else pair_err_unordered(Y.aux_data, Z_aux)
-            if not e <= TOL_SIN:
+            if not e <= tol:
                 v.append(V("mixed/%s/aux/%s/%s" % (tag, fam, xcls), "A=%s%r X=%s%r: derived data differ projectively (sin err %.3g)" % (route, sA, xcls, sX, e)))
 
     # every broadcast mode: type, composite shape, entry [idx] = A[j] applied to X[i]
@@ -969,7 +1201,7 @@ def case_mixed(case):
         for nm, Q in (("inv@A", AiA), ("A@inv", AAi)):
             if type(Q) is not type(A):
                 v.append(V("mixed/type/inverse-product/%s" % route, "%s is a %s" % (nm, type(Q).__name__)))
-            elif not unit_err(Q.proj_data, np.broadcast_to(np.eye(n + 1), sA + (n + 1, n + 1)), True) <= TOL_SIN:
+            elif not unit_err(Q.proj_data, np.broadcast_to(np.eye(n + 1), sA + (n + 1, n + 1)), True) <= tol:
                 v.append(V("mixed/inverse-product/%s" % route, "%s is not the identity projectively:\n%r" % (nm, Q.proj_data)))
             else:
                 Z = Q @ X
@@ -1038,6 +1270,20 @@ def run(ctx):
                "order-free with the oracle, ordered between two library computations of the same object")
     ctx.tolerances["exact"] = "1e-12*(1+max|v|): integer / Gaussian-integer data, every product exact in float64"
     ctx.tolerances["inverse"] = "1e-9*(1+max|v|): np.linalg.inv of a unimodular matrix carries a few ulps"
+    ctx.tolerances["inverse, ill-conditioned A"] = (
+        "projective-illcond: relative to 1+max|expected|: 1e-9 when A is a power-of-two diagonal map or I + 2^k E_ij acting on "
+        "(Gaussian) integer data with sum |terms| < 2^51 (every float64 operation of any rational inversion algorithm and of "
+        "both applications is exact); A = I + t E_ij otherwise: 64*eps*max(|A||Y|, |A^-1||AY|) (entrywise accurate inverse); any "
+        "other A (boost 2^15, I + (2^15+1)E_10, products): 64*eps*cond_2(A) ~ 1.5e-5 for cond 2^30; laws with 64*eps*cond > 1e-3 "
+        "are not decidable in float64 and are not evaluated (forward laws of the same history still are).  mixed routes P:ill-mod, "
+        "H:ill-lox: sine between rows <= 64*eps*cond_2(A) ~ 2e-5 (measured worst 5e-7); P:ill-exact: the usual 1e-8 (exact arithmetic). "
+        "A rank-deficient or truncated inverse gives errors of order 1")
+    ctx.assume("'all invertible matrices' is read in float64: a matrix whose inverse is an exact float64 matrix, or whose condition "
+               "number is below 1e-3/(64 eps) ~ 7e10, is invertible; the inverse laws are demanded for it with the tolerances stated "
+               "under 'inverse, ill-conditioned A'")
+    ctx.assume("representation histories: assigning rep[x] = T replaces the generator x AND its inverse letter (assigning through "
+               "an inverse letter X makes the generator x the inverse of T); after any sequence of evaluations and assignments "
+               "rep[w] is the word in the current generators")
     ctx.tolerances["projective rows"] = "sine of the angle between rows <= 1e-8 (entries <= ~50, errors measured 1e-15..1e-13; defects >= 1e-3)"
     ctx.tolerances["ideal coordinates"] = "1e-6 class (sqrt of a cancelling difference), DESIGN 4.3"
     depth = 4 if deep else 3
@@ -1048,6 +1294,16 @@ def run(ctx):
                 domains={"dimension": [1, 2, 3], "classes": PROJ_CLASSES, "composite shapes": SHAPES,
                          "object field": ["real", "complex"], "transformation alphabet": PROJ_GENS,
                          "construction": "column_vectors=True for even-indexed generators, transposed row matrix for odd"})
+    if want("projective-illcond"):
+        roots = [[{"d": d, "cls": c, "shape": s, "cx": cx, "alpha": "ill"}] for d in (1, 2, 3) for c in PROJ_CLASSES for s in SHAPES
+                 for cx in (False, True)]
+        ctx.bfs("projective-illcond", "checks.c03:case_proj", roots, depth=3 if deep else 2, chunk=32,
+                domains={"dimension": [1, 2, 3], "classes": PROJ_CLASSES, "composite shapes": SHAPES,
+                         "object field": ["real", "complex"], "transformation alphabet": ILL_ALPHABET,
+                         "exactly invertible, condition up to 2^60": {
+                             "Ub": "I + 2^30 E_01", "Lb": "I + 2^30 E_(n-1)0", "Ud": "I + 10^9 E_0(n-1)", "Gb": "I + 2^30 i E_01",
+                             "Um": "I + 2^15 E_01", "Db": "diag(1, 2^30, 2^-30, 2^15)[:n]"},
+                         "condition 2^30, inverse not exact": {"Lm": "I + (2^15+1) E_10", "Hm": "boost with eigenvalues 2^15, 2^-15"}})
     if want("hyperbolic"):
         roots = [[{"n": n, "cls": c, "shape": s, "seed": ctx.seed}] for n in (2, 3) for c in HYP_CLASSES for s in SHAPES]
         ctx.bfs("hyperbolic", "checks.c03:case_hyp", roots, depth=depth, chunk=16,
@@ -1057,8 +1313,12 @@ def run(ctx):
         MS = [[], [3], [2, 3]] if q else [[], [1], [3], [2, 1], [1, 3], [2, 3]]
         cases = [{"n": n, "route": r, "sA": sa, "xcls": c, "sX": sx, "seed": ctx.seed}
                  for n in (2, 3) for r in MIX_ROUTES for c in mix_classes(r) for sa in MS for sx in MS]
+        cases += [{"n": n, "route": r, "sA": sa, "xcls": c, "sX": sx, "seed": ctx.seed}
+                  for n in (2, 3) for r in MIX_ILL_ROUTES for c in mix_classes(r) for sa in MIX_ILL_SHAPES for sx in MIX_ILL_SHAPES]
         ctx.product("mixed-classes", "checks.c03:case_mixed", cases, chunk=16,
                     domains={"dimension": [2, 3], "transformation A (class:matrix)": MIX_ROUTES,
+                             "ill-conditioned A (condition 2^30..2^60, exactly invertible)": MIX_ILL_ROUTES,
+                             "composite shapes of ill-conditioned A and their X": MIX_ILL_SHAPES,
                              "X, any A": MIX_X_TRANSFORMS + MIX_X_PROJ + MIX_X_HYP_ANY, "X, isometric A only": MIX_X_HYP_ISO,
                              "composite shapes of A and of X": MS, "broadcast modes": MIX_MODES,
                              "second factor B for associativity": ["P:uni", "H:iso", "H:uni"]})
@@ -1079,3 +1339,15 @@ def run(ctx):
                     domains={"configurations": len(cfgs), "words": "all words over {a,b,A,B} of length <= %d" % L,
                              "points": "a single point, a composite (3,) point, a stacked composite (2,) point",
                              "generator supply": ["Cls(M, column_vectors=True)", "Cls(M.T)"]})
+    if want("representations-histories"):
+        seqs = rep_hist_sequences(3 if ctx.quick else 4)
+        hcfgs = [("proj", 2, False), ("proj", 2, True), ("proj", 3, False), ("proj", 3, True), ("hyp", 3, False), ("hyp", 4, False)]
+        hist = [{"kind": k, "m": m, "cx": cx, "seq": sq, "seed": ctx.seed} for (k, m, cx) in hcfgs for sq in seqs]
+        ctx.product("representations-histories", "checks.c03:case_rep_hist", hist, chunk=8,
+                    domains={"representation (kind, matrix size, complex)": hcfgs, "ops": REP_HIST_OPS,
+                             "act": "rep[w] @ (3,) point and rep[w] as a matrix for every word of length <= 2 over {a,b,A,B}",
+                             "act-inverse-letters": "the same for the words over {A,B} only", "bulk": "elements / transformations / isometries of all words of length <= 2",
+                             "x=k": "rep[x] = k-th replacement generator (x an inverse letter: the generator becomes its inverse); "
+                                    "supplied alternately as Cls(M, column_vectors=True) and Cls(M.T)",
+                             "sequences": "all of length 2..%d with an assignment somewhere after an evaluation (%d)" % (3 if ctx.quick else 4, len(seqs)),
+                             "final check": "all words of length <= 3"})
